@@ -356,7 +356,7 @@ class FamilyRun:
             return r
 
 
-def run_harness(binary, testname, cases, wd, cpus=None, tag="", extra_env=None, timeout=3000):
+def run_harness(binary, testname, cases, wd, cpus=None, tag="", extra_env=None, timeout=3000, max_stalls=5):
     """Runs an overlay harness test over a list of cases (JSON lines in, JSON lines out).
     The harness exits 4 (controlled scheduler stalled) or 5 (free-running hang) after
     writing the trace of the case in flight; the run is then resumed after that case."""
@@ -367,9 +367,13 @@ def run_harness(binary, testname, cases, wd, cpus=None, tag="", extra_env=None, 
     op = os.path.join(wd, "traces%s.ndjson" % tag)
     open(op, "w").close()
     resume = ""
+    stalls = 0
     for attempt in range(80):
         env = dict(os.environ, VERIF_CASES=cases_path, VERIF_OUT=op, VERIF_RESUME_AFTER=resume)
         env.update(extra_env or {})
+        if stalls >= max_stalls:
+            # enough stalled schedules to decide; skip the remaining controlled cases
+            env["VERIF_SKIP_CONTROLLED"] = "1"
         cmd = [binary, "-test.run", "^%s$" % testname, "-test.timeout", "%ds" % timeout]
         if cpus:
             cmd = ["taskset", "-c", "0-%d" % (cpus - 1)] + cmd
@@ -377,6 +381,8 @@ def run_harness(binary, testname, cases, wd, cpus=None, tag="", extra_env=None, 
         if p.returncode == 0:
             break
         if p.returncode in (4, 5):
+            if p.returncode == 4:
+                stalls += 1
             last = None
             with open(op) as f:
                 for line in f:
